@@ -17,7 +17,7 @@ import torch
 import inferno
 from inferno.neural import LIF, ALIF, GLIF1, GLIF2, QIF, Izhikevich, EIF, AdEx
 
-from mc.common import Tally
+from mc.common import Tally, Guard
 from mc.pool import run_shards
 
 ID = "C03"
@@ -296,10 +296,14 @@ def trie_shard(cname, hpi, dt, refrac_t, lock, adapt, T):
                 theta = ref.thresh + (sum(l0[2][e]) if (l0[2] is not None and cname in ADAPT_THRESH) else 0.0)
                 xs.append(float(torch.tensor(letter_value(lets[e], ref, l0[0][e], a_sum, theta), dtype=torch.float32)))
             try:
-                out = n(torch.tensor([xs], dtype=torch.float32), refrac_lock=lock)
+                xin = torch.tensor([xs], dtype=torch.float32)
+                g = Guard(xin)
+                out = n(xin, refrac_lock=lock)
             except Exception as ex:
                 tally.violation(f"exception:{cname}:{type(ex).__name__}", {**cfg, "letters": hist + [lets[0]]}, repr(ex))
                 continue
+            # the caller's input tensor comes back untouched, and no state aliases it (it is overwritten before the state is read)
+            g.release(tally, f"input-mutated:{cname}", {**cfg, "letters": hist + [lets[0]], "inputs": inputs_hist + [xs]})
             tally.add("steps")
             s1 = snap()
             l1 = tolist(s1)
